@@ -83,6 +83,13 @@ def body_pointwise(case):
             require(p2.shape == lb[0].shape, f"result of shape {p2.shape} for {kind} inputs of shape {lb[0].shape}")
             require(same_values(lb[1](p2), p), f"{kind} inputs of shape {lb[0].shape} give other exit probabilities than the plain arrays of the same values (e.g. {np.ravel(lb[1](p2))[:3].tolist()} instead of {p[:3].tolist()})")
             labels.add("layout_" + kind)
+    if case.get("preempt"):
+        from ..interleave import check_overlapping
+
+        other = _taus(version) if case["preempt"][0] % 2 else taus
+        b_r, e_r = beta[::-1].copy(), log_e[::-1].copy()
+        if check_overlapping(lambda: taus.tau_exit_prob(beta, log_e), lambda: other.tau_exit_prob(b_r, e_r), case["preempt"], f"Taus.tau_exit_prob ({len(beta)} events, {'two objects' if other is not taus else 'one object'})"):
+            labels.add("overlapping_calls")
     low = beta < BETA_MIN
     if low.any():
         labels.add("below_min")
@@ -232,7 +239,7 @@ REJECT_ST = (
 SUBCHECKS = [
     SubCheck(
         "pointwise",
-        st.fixed_dictionaries({"version": version_st, "events": st.lists(event2, min_size=1, max_size=48), "layout": st.sampled_from([None, None] + LAYOUTS)}),
+        st.fixed_dictionaries({"version": version_st, "events": st.lists(event2, min_size=1, max_size=48), "layout": st.sampled_from([None, None] + LAYOUTS), "preempt": st.one_of(st.just([]), st.lists(st.one_of(st.integers(0, 40), st.integers(0, 400)), min_size=1, max_size=3))}),
         body_pointwise,
         lambda labels: bool(labels & {"below_min", "above_max"}) and bool(labels & {"axis_node", "floored_node"}),
         {"quick": 1200, "thorough": 60000},
